@@ -383,6 +383,7 @@ theorem soundS : ∀ f, SoundS f := by
         try dsimp only at h3
         -- initializer
         have hi : ∃ pi, r1 = pi ++ r3 ∧ pi.map rtok = rForInit init := by
+          unfold forInit at hinit
           obtain ⟨i, ri, rfl, h4⟩ := speek_ok hinit
           try dsimp only at h4
           by_cases hs : i.tt = .SEMICOLON
@@ -407,9 +408,11 @@ theorem soundS : ∀ f, SoundS f := by
         obtain ⟨ci, r7, hci0, h6⟩ := sbind_nil h3
         try dsimp only at h6
         have hci := toSR_nil hci0
+        unfold forHeader at hci
         obtain ⟨cond, r4, hcond, h7⟩ := bind_ok hci
         try dsimp only at h7
         have hc : ∃ pc, r3 = pc ++ r4 ∧ pc.map rtok = rOptE cond := by
+          unfold optExprUntil at hcond
           obtain ⟨c, rc, rfl, h8⟩ := peek_ok hcond
           try dsimp only at h8
           by_cases hs : c.tt = .SEMICOLON
@@ -428,6 +431,7 @@ theorem soundS : ∀ f, SoundS f := by
         obtain ⟨incr, r6, hincr, h11⟩ := bind_ok h10
         try dsimp only at h11
         have hin : ∃ pn, r5 = pn ++ r6 ∧ pn.map rtok = rOptE incr := by
+          unfold optExprUntil at hincr
           obtain ⟨c, rc, rfl, h8⟩ := peek_ok hincr
           try dsimp only at h8
           by_cases hs : c.tt = .RIGHT_PAREN
